@@ -563,6 +563,8 @@ fn c34_one(rep: &mut Report, factory: &Factory, b: &Value) {
         World { tals: vec![Tal { name: "tal1".into(), ca: 0, uris: vec![("rsync://r1.verif.test/repo/ta1.cer".into(), TaVariant::Good)] }], cas: vec![ta] }
     };
     let mut cfg = bed.config();
+    // an expiry in the past: the manifest is stale when the run sees it, and stale objects are accepted
+    if expiry < 0 { cfg.stale = routinator::config::FilterPolicy::Accept; }
     cfg.refresh = Duration::from_secs((refresh * UNIT) as u64);
     cfg.min_refresh = if min == 0 { None } else { Some(Duration::from_secs((min * UNIT) as u64)) };
     let history = SharedHistory::from_config(&cfg);
@@ -587,6 +589,7 @@ fn c34_one(rep: &mut Report, factory: &Factory, b: &Value) {
     rep.eval("C34"); rep.trace("C34");
     let ctx = json!({"refresh_s": refresh * UNIT, "min_refresh_s": if min == 0 { Value::Null } else { json!(min * UNIT) },
                      "data_expires_in_s": if expiry == 0 { Value::Null } else { json!(expiry * UNIT) },
+                     "stale": if expiry < 0 { "accept (the manifest's nextUpdate has passed)" } else { "default" },
                      "earlier_run_same_payload_expiring_in_s": if prev < 0 { json!("none") } else if prev == 0 { Value::Null } else { json!(prev * UNIT) }});
     let observed = json!({"wait_s": wait, "model_wait_s": model_wait, "origins": has_payload});
     if has_payload == 0 { rep.divergence("C34", "world produced no payload"); return }
@@ -604,7 +607,7 @@ fn c34_one(rep: &mut Report, factory: &Factory, b: &Value) {
     if min != 0 && expiry != 0 && expiry < refresh {
         let want = expiry.max(min) * UNIT;
         if (wait - want).abs() > tol {
-            rep.violation("C34", "expiry-not-honoured",
+            rep.violation("C34", if expiry < 0 { "expired-data-not-honoured" } else { "expiry-not-honoured" },
                 format!("data expires in {} s, min-refresh {} s: next run expected in ~{want} s, scheduled in {wait} s", expiry * UNIT, min * UNIT),
                 ctx.clone(), observed.clone());
         }
